@@ -125,8 +125,31 @@ def run_arity(chk, F, G, CG):
     tab, gs = size_table(F)
     # create_nary stores sub.size() as the value get_size returns for variable-arity kinds
     cn = F.fn("UTAP::expression_t::create_nary")
-    stores = any(n.get("k") in ("bin", "call") and "value" in short(n.get("lhs") or n.get("recv") or {}) and
-                 "size" in short(n) for n in walk(cn["body"]))
+    cn = inline_tail_delegate(cn, F)
+    vec = [p_["name"] for p_ in cn["params"] if "vector" in (p_.get("ct") or p_.get("t") or "")]
+    inits = {v.get("id"): v.get("init") for d in walk(cn["body"]) if d.get("k") == "decl" for v in d.get("vars", [])
+             if v.get("init") is not None}
+
+    def is_param_size(e, depth=0):
+        """sub.size() of the children parameter, possibly cast or held in a local"""
+        for x in walk(e):
+            if x.get("k") == "call" and x.get("name") == "size" and any(
+                    y.get("k") == "ref" and y.get("name") in vec for y in walk(x.get("recv") or {})):
+                return True
+            if x.get("k") == "ref" and x.get("dk") == "local" and x.get("id") in inits and depth < 3 and \
+                    is_param_size(inits[x["id"]], depth + 1):
+                return True
+        return False
+    stores = False
+    for n in walk(cn["body"]):
+        lhs = rhs = None
+        if n.get("k") == "bin" and n.get("op") == "=":
+            lhs, rhs = n["lhs"], n["rhs"]
+        elif n.get("k") == "call" and n.get("ck") == "op" and n.get("op") == "=":
+            lhs, rhs = n.get("recv"), (n.get("args") or [None])[-1]
+        if isinstance(lhs, dict) and lhs.get("k") == "member" and lhs.get("name") == "value" and rhs is not None and \
+                is_param_size(rhs):
+            stores = True
     chk.ob(rid, "create_nary|stores-size", stores, "create_nary does not store the number of children as the node's value",
            "%s:%s" % (cn["file"], cn["line"]))
     seen = {}
@@ -424,6 +447,26 @@ def run_fields(chk, F):
     loop = any(n.get("k") == "for" and any(c.get("name") == "equal" for c in calls(n["body"])) and
                any(x.get("k") == "return" and (x.get("e") or {}).get("v") is False for x in walk(n["body"]))
                for n in walk(eq["body"]))
+    if not loop:
+        # std::equal over the two child vectors with a predicate that calls equal()
+        loc_init = {v.get("id"): v.get("init") for d in walk(eq["body"]) if d.get("k") == "decl"
+                    for v in d.get("vars", []) if v.get("init") is not None}
+
+        def over_children(a):
+            t = short(a)
+            for x in walk(a):
+                if x.get("k") == "ref" and x.get("id") in loc_init:
+                    t += " " + short(loc_init[x["id"]])
+            return "begin" in t and "sub" in t
+        for c in calls(eq["body"]):
+            if c.get("name") == "equal" and c.get("ck") in ("free", None) and len(c.get("args", [])) >= 4:
+                a = c["args"]
+                lam = a[-1]
+                while isinstance(lam, dict) and lam.get("k") in ("cast", "materialize"):
+                    lam = lam["e"]
+                if over_children(a[0]) and over_children(a[2]) and isinstance(lam, dict) and lam.get("k") == "lambda" and \
+                        any(x.get("name") == "equal" and x.get("cls") == "UTAP::expression_t" for x in calls(lam.get("body"))):
+                    loop = True
     chk.ob(rid, "equal|children", loop, "expression_t::equal does not compare every child recursively",
            "%s:%s" % (eq["file"], eq["line"]))
     # the unequal test returns false, the tail returns true, identical nodes are equal
